@@ -718,6 +718,18 @@ func (g *c03Gen) use(r *VRand, f *c03Flow, fwd bool) {
 		g.c(fmt.Sprintf("use %d %s %d %s %d %d %d", l4, hex.EncodeToString(sip[:]), sp, hex.EncodeToString(dip[:]), dp, age, dt))
 		g.stats.Inc(fmt.Sprintf("use.l4-%d", l4))
 	}
+	if !f.tcp && r.Chance(0.35) {
+		// the same client socket talks to ANOTHER destination right away: a full-cone endpoint (keyed by the source
+		// only) must not serve the record it cached for the first destination
+		d2 := dip
+		d2[15] ^= byte(1 + r.Intn(3))
+		p2 := dp
+		if r.Bool() {
+			p2 = []uint16{80, 443, 8080, 8443}[r.Intn(4)]
+		}
+		g.c(fmt.Sprintf("use %d %s %d %s %d %d %d", l4, hex.EncodeToString(sip[:]), sp, hex.EncodeToString(d2[:]), p2, age, []int{0, 1, 100}[r.Intn(3)]))
+		g.stats.Inc("use.other-dst")
+	}
 }
 
 // one janitor round (conn-state + hand-off), steady-state or under pressure, `age` ns from now
